@@ -185,6 +185,9 @@ def run(tier):
         raise vp.Broken("trace validation did not complete: %s" % r.out[-1500:])
     chk.add_tlc("Trace_AppPtr", r, "trace validation of %d recorded events" % len(events))
     n_exec = sum(1 for e in events if e["e"] == "reset")
+    # the same refusals in the library's DEFAULT failure configuration (no exceptions, no custom handler): the process ends
+    import abortcommon
+    abortcommon.judge(chk, wd, "C15")
     chk.count(evaluations=len(events), distinct=n_edges, traces=n_exec)
     for b in res[0]["bad"]:
         i = b - 1
